@@ -74,6 +74,21 @@ Definition dispatch_fx (traces_too : bool) (fl : flags) : list fetch :=
 Definition dispatch := dispatch_fx true.
 Definition legacy_dispatch := dispatch_fx false.
 
+(* ---- the same as DATA (Gen/GetDispatch.v, regenerated from the source of Client.Get):
+   a sequence of choice groups; a group is the ordered cases of one switch (or a
+   single if); the first case whose guard holds contributes its requests.
+   A guard is a list of flags (any of them; `case a, b:`), None = default. *)
+Record dcase := mkDcase { dc_guard : option (list flag); dc_fetch : list fetch }.
+Definition flag_on (fl : flags) (f : flag) : bool :=
+  match f with
+  | FHeaders => use_headers fl | FBlocks => use_blocks fl | FReceipts => use_receipts fl
+  | FLogs => use_logs fl | FTraces => use_traces fl
+  end.
+Definition guard_holds (fl : flags) (c : dcase) : bool :=
+  match dc_guard c with None => true | Some fs => existsb (flag_on fl) fs end.
+Definition dispatch_of (groups : list (list dcase)) (fl : flags) : list fetch :=
+  flat_map (fun g => match find (guard_holds fl) g with Some c => dc_fetch c | None => [] end) groups.
+
 (* ---- the names the row builder understands (Gen/GetFields.v) *)
 Inductive iclass := ICtx | IHeader | ITx | IReceipt | ILog | ITrace.
 Record field := mkField { f_name : string; f_class : iclass; f_acc : string }.
